@@ -170,9 +170,12 @@ def hypothesis_search(strategy, body, seed, max_examples, res, batch=None, deadl
     failure Hypothesis shrinks it; the minimal failing case's Failure is appended
     to res.failures.  Cases are generated in batches with derived seeds so a wall
     budget can stop the search early (inconclusive, never a violation)."""
+    import warnings
+
     import hypothesis
     from hypothesis import given
 
+    warnings.filterwarnings("ignore", category=hypothesis.errors.HypothesisWarning)
     batch = batch or max_examples
     done = 0
     b = 0
